@@ -3,3 +3,7 @@ import WrglModel.Props.C15
 #print axioms Wrgl.C15_refines
 #print axioms Wrgl.C15_like_is_not_prefix
 #print axioms Wrgl.C15_fact_remotePrefixBoundary
+#print axioms Wrgl.C15_fs_same_elsewhere
+#print axioms Wrgl.C15_fs_conservative
+#print axioms Wrgl.C15_fs_rename_replaces
+#print axioms Wrgl.C15_fs_copy_replaces
